@@ -442,12 +442,14 @@ TinySpace == {Typed("int"), Typed("float"), Typed("bool"), Typed("object"), Type
 SmallSpace == TinySpace \cup Small \cup OptionalEtc \cup SubclassTerms
               \cup {SeqT("tuple", << >>), SeqT("list", << >>), Generic("tuple", <<Typed("int")>>), SeqT("tuple", <<Many(Typed("int"))>>),
                     SeqT("tuple", <<One(Typed("int")), Many(Typed("str"))>>), NewType("N", "int"), Typed("Sequence"), Typed("str")}
+\* MultiValuedValue flattens nested unions on construction: only flat unions are values
+FlatUnion(t) == t.k = "union" => \A i \in 1..Len(t.ms) : t.ms[i].k # "union"
 VSpaceOf(name) ==
     CASE name = "none" -> {}
       [] name = "tiny" -> TinySpace
       [] name = "small" -> SmallSpace
       [] name = "d1" -> D1 \cup OptionalEtc
-      [] name = "d2" -> D1 \cup OptionalEtc \cup D2Static
+      [] name = "d2" -> D1 \cup OptionalEtc \cup {t \in D2Static : FlatUnion(t)}
 
 IsinstPairs == {<<"int", "str">>, <<"str", "NoneType">>, <<"A", "int">>, <<"list", "tuple">>, <<"float", "int">>}
 SubclsClasses == {"int", "bool", "str", "A", "B", "object"}
